@@ -53,6 +53,8 @@ class Ctx:
         if len(self.violations) < 40:
             w = dict(f)
             w['case'] = case
+            w['env'] = dict({k: os.environ.get(k) for k in ('TZ', 'LC_ALL', 'LANG', 'PYTHONHASHSEED')},
+                            optimize=int(sys.flags.optimize))
             self.violations.append(w)
         self.cnt('violations_seen')
 
